@@ -182,3 +182,58 @@ package responsemanager
 //@   ensures result.Empty <==> (nTaskDone == old(nTaskDone) + 1)
 //@   ensures !result.Empty ==> nTaskDone == old(nTaskDone) && task.Topic in rm.inProgressResponses && rm.inProgressResponses[task.Topic].state == graphsync.Running
 //@   callsite TaskQueue.TaskDone: assert $p == p && $task == task
+
+//@ -- ============================ C03: request extensions become the responder's send rules ============================
+//@ -- what the three extension payloads decode to (the decoders are deterministic functions of the payload)
+//@ fn dedupKeyOf(n ref) string
+//@ fn skipCountOf(n ref) int
+//@ fn cidSetLen(s ref) int
+//@ ghost nScope int          -- deduplication-scope decisions taken so far (one per processDedupByKey)
+//@ func github.com/ipfs/go-graphsync/dedupkey.DecodeDedupKey
+//@   assumed
+//@   modifies alloc
+//@   ensures result1 == nil ==> result0 == dedupKeyOf(data)
+//@ func github.com/ipfs/go-graphsync/donotsendfirstblocks.DecodeDoNotSendFirstBlocks
+//@   assumed
+//@   modifies alloc
+//@   ensures result1 == nil ==> result0 == skipCountOf(data)
+//@ func github.com/ipfs/go-graphsync/cidset.DecodeCidSet
+//@   assumed
+//@   modifies alloc
+//@   ensures result1 == nil ==> result0 != nil
+//@ func github.com/ipfs/go-cid.Set.Len
+//@   assumed
+//@   modifies nothing
+//@   ensures result == cidSetLen(self) && result >= 0
+//@ func github.com/ipfs/go-cid.Set.ForEach
+//@   assumed
+//@   params f
+//@   iterates f(cidSetElem(self, $i)) count cidSetLen(self)
+//@   modifies nothing
+//@ fn cidSetElem(s ref, i int) ref
+//@ -- the scope a request deduplicates in is chosen first: the ignore set (do-not-send-cids) is RECORDED in the scope's
+//@ -- link tracker, so it must not be recorded before the scope is known
+//@ func prepareQuery
+//@   lenient
+//@   safety off
+//@   modifies alloc, nScope
+//@   callsite processDoNoSendCids: assert nScope == old(nScope) + 1
+//@   callsite processDoNotSendFirstBlocks: assert nScope == old(nScope) + 1
+//@ func processDedupByKey
+//@   lenient
+//@   safety off
+//@   modifies alloc, nScope
+//@   ghost nScope := old(nScope) + 1
+//@   callsite ResponseStream.DedupKey: assert arg0 == dedupKeyOf(dedupData)
+//@ -- the skip count given to the assembler is the decoded one; every decoded CID becomes one ignored link
+//@ func processDoNotSendFirstBlocks
+//@   lenient
+//@   safety off
+//@   modifies alloc
+//@   callsite ResponseStream.SkipFirstBlocks: assert arg0 == skipCountOf(doNotSendFirstBlocksData)
+//@ func processDoNoSendCids
+//@   lenient
+//@   safety off
+//@   modifies alloc
+//@   iterloop Set.ForEach invariant len(links) == $i
+//@   callsite ResponseStream.IgnoreBlocks: assert len(arg0) == cidSetLen(cidSet)
